@@ -162,6 +162,14 @@ Section Chk.
         N.eqb (d_env dr) e && N.eqb (d_lbl dr) lbl &&
         scan (fun body be => extends sol be e && forallb (fun s' => chk_stmt s' be) body) cs (d_branches dr)) (s_disjs sol)
     | SFormula isfact x scope pred args => formula_okb e isfact x scope pred args
+    | SAssign path x fresh c =>
+      match assign_target sol e path with
+      | Some t => match own sol t x with
+                  | Some v => if fresh then match eval sol e c with Some u => veq_trueb u v | None => false end else true
+                  | None => false
+                  end
+      | None => false
+      end
     end.
 
   Definition chk_list (l : list stmt) (e : ident) : bool := forallb (fun s => chk_stmt s e) l.
